@@ -25,6 +25,7 @@ import (
 	"os"
 	"os/exec"
 	"path/filepath"
+	"reflect"
 	"sort"
 	"strconv"
 	"strings"
@@ -357,6 +358,14 @@ func (c *ctx) execChecked(sql string, kind string) (string, error) {
 			c.o.Law("ast_unchanged", map[string]string{"kind": kind, "sql": sql, "before": before[i], "after": after})
 			c.scanText(after, "syntax tree", sql)
 			break
+		}
+	}
+	if c.poison {
+		for _, s := range stmts {
+			if what := poisonInTree(reflect.ValueOf(s), 0); what != "" {
+				c.poisoned("syntax tree literal", what, sql, "after execution a literal of the parsed statement holds the "+what+" poison")
+				break
+			}
 		}
 	}
 	c.scanText(out, whereOf(kind), sql)
